@@ -42,7 +42,7 @@ def r1(ctx, rep, res, where):
     G.check_side_conditions(rep, "C13-R1", res, where)
     G.model_limits(rep, "C13-R1", res, where, "both")
     divs = GM.divergences(res)
-    for cmp_ in res["engine"]["compare"]:
+    for cmp_ in [c for c in res["engine"]["compare"] if not c["id"].startswith("np:")]:
         rep.ok("C13-R1", "compared:%s" % cmp_["id"], where, "%d product states" % cmp_["product_states"])
     for k, d in sorted(divs.items()):
         if not d["blank_related"]:
